@@ -23,7 +23,10 @@ pub enum Req {
     /// style), 2 = 0.0.0.0 (probe style), 3 = another address; `tha`: target hardware address
     /// 0 = zero (usual), 1 = the frame's Ethernet destination (a unicast poll when that is the
     /// responder's MAC), 2 = broadcast, 3 = the client's MAC, 4 = other
-    Arp { pad: u8, #[serde(default)] spa: u8, #[serde(default)] tha: u8 },
+    Arp { pad: u8, #[serde(default)] spa: u8, #[serde(default)] tha: u8,
+          /// sender hardware address: false = the frame's Ethernet source (usual), true = another
+          /// MAC (relayed / proxied request: the reply still goes to the frame's source)
+          #[serde(default)] sha_other: bool },
     Echo { id: u16, seq: u16, data: Hex, pad: u8,
            /// IPv4 header options of the request (well-formed: NOP / Record Route / Timestamp / EOL,
            /// padded to a multiple of 4); ignored over IPv6
@@ -144,7 +147,7 @@ pub fn req(v4: bool) -> BoxedStrategy<Req> {
         1 => hostile_stun().prop_map(Pay::Stun),
     ];
     let l2 = if v4 {
-        (0u8..19, prop_oneof![4 => Just(0u8), 1 => 1u8..4], prop_oneof![3 => Just(0u8), 2 => Just(1u8), 1 => 2u8..5]).prop_map(|(pad, spa, tha)| Req::Arp { pad, spa, tha }).boxed()
+        (0u8..19, prop_oneof![4 => Just(0u8), 1 => 1u8..4], prop_oneof![3 => Just(0u8), 2 => Just(1u8), 1 => 2u8..5]).prop_map(|(pad, spa, tha)| Req::Arp { pad, spa, tha, sha_other: pad % 5 == 1 }).boxed()
     } else {
         (ndp_opts_wf(), any::<bool>(), prop::option::weighted(0.3, any::<[u8; 16]>())).prop_map(|(opts, unicast, other_dst)| Req::Ns { opts, unicast, other_dst }).boxed()
     };
@@ -163,11 +166,12 @@ pub fn req(v4: bool) -> BoxedStrategy<Req> {
 /// (e.g. SYN not answered) — callers treat that as its own failure where appropriate.
 pub fn realize(sut: &Sut, net: &Net, r: &Req) -> Result<Vec<u8>, String> {
     Ok(match r {
-        Req::Arp { pad, spa, tha } => match (&net.cip, &net.sip) {
+        Req::Arp { pad, spa, tha, sha_other } => match (&net.cip, &net.sip) {
             (IpAddr::V4(c), IpAddr::V4(s)) => {
                 let spa = match spa { 0 => c.octets(), 1 => s.octets(), 2 => [0; 4], _ => { let mut o = c.octets(); o[2] ^= 0x55; o } };
                 let tha = match tha { 0 => [0u8; 6], 1 => net.dmac, 2 => BCAST, 3 => net.cmac, _ => [0x02, 0xaa, *pad, 0x11, 0x22, 0x33] };
-                let m = ArpM { htype: 1, ptype: 0x0800, hlen: 6, plen: 4, op: 1, sha: net.cmac, spa, tha, tpa: s.octets() };
+                let sha = if *sha_other { [0x02, 0x5a, net.cmac[2] ^ 0xff, net.cmac[3], net.cmac[4], net.cmac[5] ^ 1] } else { net.cmac };
+                let m = ArpM { htype: 1, ptype: 0x0800, hlen: 6, plen: 4, op: 1, sha, spa, tha, tpa: s.octets() };
                 let mut f = eth(&net.dmac, &net.cmac, ET_ARP, &arp(&m));
                 f.extend(std::iter::repeat(0u8).take(*pad as usize));
                 f
